@@ -1,6 +1,10 @@
 //! verif — property-based testing / fuzzing harness for autosar-data (one sub-command per property)
 mod adoc;
 mod c01;
+mod c02;
+mod c08;
+mod inputs;
+mod loader;
 mod engine;
 mod rx;
 mod spec;
@@ -21,6 +25,10 @@ fn main() {
         usage();
     }
     let id = args[1].to_uppercase();
+    if id == "CHILD-DEPTH" {
+        let d: usize = args[2].parse().unwrap();
+        std::process::exit(c02::child_depth(d, &args[3]));
+    }
     if id == "GRAMMAR" {
         // verif grammar <ELEMENT-NAME> <version index>: print the grammar of every type with that name
         let si = spec::SpecIndex::get();
@@ -77,6 +85,8 @@ fn main() {
                     let case = if v.get("case").is_some() { v["case"].clone() } else { v };
                     match id.as_str() {
                         "C01" => c01::replay(&ctx, &case),
+                        "C02" => c02::replay(&ctx, &case),
+                        "C08" => c08::replay(&ctx, &case),
                         "C18" => c18::replay(&ctx, &case),
                         "C19" => c19::replay(&ctx, &case),
                         _ => usage(),
@@ -84,6 +94,8 @@ fn main() {
                 } else {
                     match id.as_str() {
                         "C01" => c01::run(&ctx),
+                        "C02" => c02::run(&ctx),
+                        "C08" => c08::run(&ctx),
                         "C18" => c18::run(&ctx),
                         "C19" => c19::run(&ctx),
                         _ => usage(),
